@@ -47,6 +47,10 @@ def gen_profile(rng, npr, kind=None):
             i_ = rng.randint(1, len(h) - 1); h[i_] = h[i_ - 1]
         kind += "+repeated"
     p = npr.uniform(0.05, 1.0, size=len(h)) * 1e-13
+    if rng.random() < 0.2:
+        # a sparse profile: most layers carry exactly no turbulence (bins of a fixed altitude grid that happen to be empty)
+        zero = npr.random(len(h)) < 0.7; zero[npr.integers(0, len(h))] = False
+        p = numpy.where(zero, 0.0, p); kind += "+sparse"
     w = npr.uniform(2, 40, size=len(h))
     return kind, h, p, w
 
@@ -122,7 +126,10 @@ def property_checks(inp):
     with warnings.catch_warnings():
         warnings.simplefilter("ignore")
         nb, counts, dropped = slab_info(h, L)
-        tag = ("edge-sensitive" if nb != L else "regular-edges") + ("/empty-slab" if min(counts) == 0 else "")
+        hstep_ = (h.max() - h.min()) / L
+        ix_ = numpy.digitize(h, h.min() + hstep_ * numpy.arange(L))
+        strengths = [float(p[ix_ == i_ + 1].sum()) for i_ in range(L)]
+        tag = ("edge-sensitive" if nb != L else "regular-edges") + ("/empty-slab" if (min(counts) == 0 or min(strengths) == 0.0) else "")
         hL, cL, wL = pc.equivalent_layers(h, p, L, w=w)
         A(("EL returns exactly L layers with non-negative strengths (%s)" % tag, 0.0 if (len(hL) == L and len(cL) == L and (cL >= 0).all() and numpy.isfinite(hL).all()) else 1.0, 0.0))
         A(("EL conserves the total Cn2 / drops no layer (%s)" % tag, abs(float(cL.sum() / p.sum() - 1)), 1e-12))
